@@ -84,6 +84,10 @@ Definition arc_solution (I : Arc.inst) (x : list Z) (v : Z) : Prop :=
   length x = Arc.num_variables I /\ Arc_facts.binary x /\
   Arc.Ax I x = Arc.rhs I /\ Arc.obj_value I x = v.
 
+(* the node list of a depot-to-depot chain of arc-based variables (origin, dep. time, destination, arr. time):
+   depot, the destinations of all moves but the last, depot *)
+Definition moves_route (r : list Arc.var) : list nat := O :: map Arc.dnode (removelast r) ++ [O].
+
 (* the grid holds time 0 and the service time of every stop of every valid route *)
 Definition grid_complete (st : pstate) (grid : list Z) : Prop :=
   In 0 grid /\
